@@ -185,6 +185,9 @@ def run_property(prop, tier="quick", seed=0, explain=None):
                     moved_bad.setdefault((cfg, rule), []).append([a for a in alts if not a.ok][0])
             rescued = 0
             if os.environ.get("VERIF_DEBUG_VIEWS"):
+                for (cfg_, rule_), lst_ in moved_bad.items():
+                    for a_ in lst_[:6]:
+                        print("  [view %s only] %s|%s — %s" % (view, rule_, a_.key[:260], a_.what[-160:]))
                 for o in failing:
                     alt = second.get((o.cfg, o.rule, o.key))
                     print("  [view %s] %s|%s: %s" % (view, o.rule, o.key[:100], "absent" if alt is None else
